@@ -64,5 +64,8 @@ pub fn run(ctx: &Ctx) {
     ctx.par_proptest("random-trees", n, || schematree::arb_tree(TreeCfg::default()), |t, l| check(t, l));
     let n = ctx.tier.pick(30_000, 300_000);
     ctx.par_proptest("deep-and-wide", n, || schematree::arb_deep_or_wide(150, 200), |t, l| check(t, l));
+    let n = ctx.tier.pick(10_000, 100_000);
+    ctx.par_proptest("array-then-new-types", n, || schematree::arb_array_then_types(TreeCfg { depth: 3, width: 4, exotic: true }), |t, l| check(t, l));
+    ctx.par_proptest("same-shape-pairs", n, || schematree::arb_same_shape_pair(TreeCfg { depth: 3, width: 4, exotic: true }), |t, l| check(t, l));
     super::corpus_checks::c15(ctx);
 }
